@@ -31,6 +31,12 @@ func (keeper Keeper) AddDeposit(ctx context.Context, proposalID uint64, deposito
 		return false, govtypes.ErrInactiveProposal.Wrapf("%d", proposalID)
 	}
 
+	// the governance module account is where deposits are held: a deposit made by that account itself (possible through
+	// a passed proposal) would be recorded without any coin moving, and its refund could not be paid at the proposal's end
+	if depositorAddr.Equals(keeper.authKeeper.GetModuleAddress(govtypes.ModuleName)) {
+		return false, sdkerrors.ErrInvalidRequest.Wrap("the governance module account cannot be a depositor")
+	}
+
 	// Check coins to be deposited match the proposal's deposit params
 	params, err := keeper.Params.Get(ctx)
 	if err != nil {
